@@ -298,7 +298,7 @@ def r8_9(ctx):
         raise AnalysisError("ProgressBar.__rich_console__: the bar's `width` is not assigned exactly once; the cap by options.max_width is not decided")
     wv_ = _inl89(wd[0].value, _sd89)
     capped = isinstance(wv_, ast.Call) and norm(wv_.func) == "min" and any(norm(a) == "options.max_width" for a in wv_.args)
-    if not capped and "options.max_width" in norm(wv_) and not (isinstance(wv_, ast.Call) and norm(wv_.func) == "min"):
+    if not capped and "options.max_width" in norm(wv_) and not isinstance(wv_, (ast.BoolOp, ast.Attribute, ast.IfExp)) and not (isinstance(wv_, ast.Call) and norm(wv_.func) == "min"):
         raise AnalysisError(f"ProgressBar.__rich_console__: width is `{norm(wv_)}`; cannot tell whether options.max_width caps it")
     ctx.check(capped, f.fq, norm(wd[0]), f.where, "bar width capped by options.max_width", "ProgressBar's width is not min(..., options.max_width): a bar can exceed the width it is given")
     # glyphs are single cells
